@@ -130,7 +130,11 @@ pub fn def(tier: Tier) -> PropertyDef {
 	checks.extend(diff_checks("C20", "period_type_u16,unsafe_performance", tier, 4));
 	for f in wide.iter().copied().chain(extra) {
 		for inner in INNER {
-			checks.push(Box::new(Embedded { feature: f.to_string(), inner, tier }));
+			// C02 and C04 evaluate a from-scratch formula over the whole window at every step: with window lengths
+			// of several thousand their thorough tier costs an hour per build, so the quick tier runs there
+			// (with the wide lengths) and the cheap recurrences and detectors run their thorough tier
+			let t = if tier == Tier::Thorough && matches!(inner, "C02" | "C04") { Tier::Quick } else { tier };
+			checks.push(Box::new(Embedded { feature: f.to_string(), inner, tier: t }));
 		}
 		if tier == Tier::Thorough {
 			// the averaging laws / impulse responses and the serde round trips inside the build as well
